@@ -356,10 +356,11 @@ def replay(ctx, data):
 LEVEL_TEXT = ('Machine-checked proof (Coq 8.16.1) on SQLite\'s mechanism: in every reachable state of any number of threads a session holding objects loaded with for_update()/get_for_update() '
               'is in an immediate transaction, holds the provider lock, and no other session of the process is in a transaction (C35_sqlite_mutex); meanwhile any step of another thread '
               'blocks or issues no write (C35_no_concurrent_write); every statement of a serializable (immediate, ddl) session - under any faults - runs inside BEGIN IMMEDIATE with the lock held '
-              '(C35_serializable_begin); the SQL builders append FOR UPDATE [NOWAIT] [SKIP LOCKED] for PostgreSQL/MySQL and nothing for SQLite (C35_for_update_sql, builder re-translated from '
+              '(C35_serializable_begin); get_for_update through the pk / unique-key / composite-key / one-to-one routes, object cached or not, leaves the session in its transaction with the lock held, '
+              'or fails loudly for the column-less one-to-one side (C35_get_for_update_locks, C35_get_for_update_reverse); the SQL builders append FOR UPDATE [NOWAIT] [SKIP LOCKED] for PostgreSQL/MySQL and nothing for SQLite (C35_for_update_sql, builder re-translated from '
               'source on every run). Tied by trace correspondence on deterministic thread schedules and by SQL text correspondence over (provider, form, nowait, skip_locked).')
 LEVEL_NOTE = ('Partial: PostgreSQL/MySQL/Oracle row locking and PostgreSQL serializable isolation are trusted (only the SQL text is checked; Oracle by text comparison only); '
-              'cross-process SQLite locking is trusted; "no committed write lost" for ORM read-modify-write (optimistic checks, C20) is checked by the schedule search, not proved here.')
+              'cross-process SQLite file locking itself is trusted (Pony\'s reaction to a write lock held by another process - failing BEGIN IMMEDIATE, lock released, later session succeeds, no committed write lost - is tied by a real two-process run in C19); "no committed write lost" for ORM read-modify-write (optimistic checks, C20) is checked by the schedule search, not proved here.')
 TECHNIQUE = ('Coq invariant proof over the C19 state-machine model lifted to thread schedules; py2coq-style translation of SELECT_FOR_UPDATE; vm_compute correspondence of SQL text and of '
              'deterministic two/three-thread schedules on a SQLite file; no-lost-committed-write / disjoint-transaction search oracle')
 DESIGN_REF = 'DESIGN.md section 5, C35'
